@@ -411,6 +411,47 @@ def falsify(ctx, hints):
                     add(f"arip:targets:hit:{aggn}", "arip does not hit its high-frequency target values exactly", tinp, got_t.tolist(), want_t.tolist())
         except Exception as e:  # noqa
             add(f"arip:targets:raises:{type(e).__name__}", f"arip with targets raises {type(e).__name__}: {e}"[:200], {"note": "arip targets"})
+        # 4d. arip on a MULTI-VARIANT series whose variants have their missing observations at different periods (same and
+        #     different counts): every variant must satisfy its own aggregation constraints on its own observed periods
+        try:
+            fl = rng.choice([1, 4]); fh = rng.choice([f for f in (4, 12) if f > fl]); nw = fh // fl
+            nl = rng.randint(4, 7); nv = rng.randint(2, 4)
+            rows = [[float(rng.randint(20, 80)) for _ in range(nv)] for _ in range(nl)]
+            n_gap = rng.randint(1, 2)
+            for v in range(nv):
+                if v == 0 and rng.random() < 0.3:
+                    continue                                   # a complete variant next to gappy ones
+                k = n_gap if rng.random() < 0.75 else rng.randint(0, 2)     # mostly the SAME number of gaps, elsewhere
+                for i in rng.sample(range(1, nl - 1), min(k, nl - 2)):
+                    rows[i][v] = float("nan")
+            lo_spec = {"freq": fl, "start": (2000 + rng.randint(0, 20)) * fl + rng.randint(0, fl - 1), "nv": nv, "rows": rows}
+            lo = sc.mk_series(lo_spec)
+            aggn = rng.choice(["sum", "mean", "first", "last"]); form = rng.choice(["diff", "rate"])
+            hs = lo.start.convert(_freq_enum(fh), position="start")
+            hi = ir.disaggregate(lo, _freq_enum(fh), method="arip", model=(form, aggn))
+            xh = np.asarray(hi.get_data(ir.Span(hs, hs + nl * nw - 1)), dtype=float)
+            info["arip"] += 1
+            vec = {"sum": [1] * nw, "mean": [1 / nw] * nw, "first": [1] + [0] * (nw - 1), "last": [0] * (nw - 1) + [1]}[aggn]
+            vinp = {"series": lo_spec, "target": fh, "model": [form, aggn]}
+            for v in range(nv):
+                low = np.array([r[v] for r in rows]); fin = np.where(np.isfinite(low))[0]
+                back = np.array([float(np.dot(vec, xh[i * nw:(i + 1) * nw, v])) for i in fin])
+                if xh.shape[1] != nv or not _close(back, low[fin], 1e-7):
+                    add(f"arip:variants:constraints:{aggn}",
+                        f"arip on a multi-variant series: variant {v} does not satisfy its aggregation constraints on its own observed periods",
+                        dict(vinp, variant=v), back.tolist(), low[fin].tolist(),
+                        f"irispie.disaggregate(x, {fh}, method='arip', model=('{form}','{aggn}'))  # x has {nv} variants")
+                    break
+                one = sc.mk_series({"freq": fl, "start": lo_spec["start"], "nv": 1, "rows": [[r[v]] for r in rows]})
+                alone = np.asarray(ir.disaggregate(one, _freq_enum(fh), method="arip", model=(form, aggn)).get_data(
+                    ir.Span(hs, hs + nl * nw - 1)), dtype=float)[:, 0]
+                if not _close(alone, xh[:, v], 1e-7):
+                    add(f"arip:variants:pointwise:{aggn}",
+                        f"arip on a multi-variant series: variant {v} differs from disaggregating that variant on its own (both are "
+                        "claimed to be THE constrained minimiser)", dict(vinp, variant=v), xh[:, v].tolist(), alone.tolist())
+                    break
+        except Exception as e:  # noqa
+            add(f"arip:variants:raises:{type(e).__name__}", f"arip on a multi-variant series raises {type(e).__name__}: {e}"[:200], {"note": "arip variants"})
         # 4c. exact documented positions of first / middle / last for a DAILY target (month lengths, leap years)
         try:
             fl = rng.choice([1, 4, 12]); nl = rng.randint(3, 6)
